@@ -109,8 +109,8 @@ Section WrapperProofs.
       w_poll_read, w_start_seek, w_poll_complete, w_poll_fill_buf, w_aconsume, w_poll_next,
       w_stream_size_hint, w_poll_write_vectored, w_is_write_vectored.
 
-  (** MASTER THEOREM (every variant of the code): outside the known classes of that variant, a
-      call on the adaptor meets the property *)
+  (** MASTER LEMMA (every variant of the code): outside the classes of the fixes that variant
+      lacks, a call on the adaptor meets the property.  [head_code] lacks none (Section Head). *)
   Theorem step_spec (s : S) (b : bar) (c : call) :
     known_dev b c (snd (bare_step s c)) = false -> meets_spec s b c.
   Proof.
@@ -173,8 +173,8 @@ Section WrapperProofs.
     inversion H; subst. reflexivity.
   Qed.
 
-  (** the adaptor adds a panic in exactly one situation: the saturating patch is absent and the
-      inner AsyncRead shrank ReadBuf::filled *)
+  (** a variant adds a panic in exactly one situation: fix c811d79 (saturating_sub) is absent and
+      the inner AsyncRead shrank ReadBuf::filled *)
   Theorem step_panics_iff s b c :
     (exists site, wrap_step (s, b) c = Panic site) <->
     (v_poll_read_saturating V = false /\
@@ -244,7 +244,7 @@ Section WrapperProofs.
   Qed.
 
   (** Stream::poll_next, transcription for every variant: Ready(None) runs finish_using_style
-      unless the guard patch is present and the bar is already finished *)
+      unless fix 3a319c2 (the guard) is present and the bar is already finished *)
   Theorem poll_next_none s b s' :
     i_poll_next I s = (s', Ready None) ->
     w_poll_next S E Item Data I V (s, b) =
@@ -365,14 +365,14 @@ Section Traces.
 End Traces.
 
 (* ------------------------------------------------------------------ *)
-(** * The patched tree: the property holds for EVERY call, no class excluded *)
-Section Patched.
+(** * /repo HEAD ([head_code]): the property holds for EVERY call, no class excluded *)
+Section Head.
   Variables S E Item Data : Type.
   Variable I : inner S E Item Data.
   Variable B : buffers Data.
 
-  Lemma patched_no_dev b (c : call Data) (r : ret E Item Data) :
-    known_dev E Item Data patched_code b c r = false.
+  Lemma head_no_dev b (c : call Data) (r : ret E Item Data) :
+    known_dev E Item Data head_code b c r = false.
   Proof.
     destruct c, r; cbn [known_dev]; try reflexivity;
       repeat (match goal with
@@ -380,76 +380,52 @@ Section Patched.
               end; cbn [known_dev]); reflexivity.
   Qed.
 
-  Lemma patched_trace_ok t : forall b, trace_ok E Item Data patched_code b t = true.
+  Lemma head_trace_ok t : forall b, trace_ok E Item Data head_code b t = true.
   Proof.
     induction t as [|[c r] t IH]; intros b; [reflexivity|].
-    cbn [trace_ok]. rewrite patched_no_dev, IH. reflexivity.
+    cbn [trace_ok]. rewrite head_no_dev, IH. reflexivity.
   Qed.
 
-  Theorem step_spec_patched s b c : meets_spec S E Item Data I patched_code B s b c.
-  Proof. apply step_spec. apply patched_no_dev. Qed.
+  Theorem step_spec_head s b c : meets_spec S E Item Data I head_code B s b c.
+  Proof. apply step_spec. apply head_no_dev. Qed.
 
-  Theorem step_transparent_patched s b c w' r :
-    wrap_step S E Item Data I patched_code B (s, b) c = Ok (w', r) ->
+  Theorem step_transparent_head s b c w' r :
+    wrap_step S E Item Data I head_code B (s, b) c = Ok (w', r) ->
     (fst w', r) = bare_step S E Item Data I s c.
-  Proof. apply step_transparent. apply patched_no_dev. Qed.
+  Proof. apply step_transparent. apply head_no_dev. Qed.
 
-  Theorem step_counts_patched s b c w' r :
-    wrap_step S E Item Data I patched_code B (s, b) c = Ok (w', r) ->
+  Theorem step_counts_head s b c w' r :
+    wrap_step S E Item Data I head_code B (s, b) c = Ok (w', r) ->
     snd w' = apply_effect b (effect_of E Item Data c (snd (bare_step S E Item Data I s c))).
-  Proof. apply step_counts. apply patched_no_dev. Qed.
+  Proof. apply step_counts. apply head_no_dev. Qed.
 
-  Theorem never_panics_patched s b c :
-    ~ exists site, wrap_step S E Item Data I patched_code B (s, b) c = Panic site.
+  Theorem never_panics_head s b c :
+    ~ exists site, wrap_step S E Item Data I head_code B (s, b) c = Panic site.
   Proof.
-    intros [site H]. pose proof (step_spec_patched s b c) as Hs.
+    intros [site H]. pose proof (step_spec_head s b c) as Hs.
     unfold meets_spec in Hs. rewrite Hs in H.
     destruct (bare_step S E Item Data I s c). discriminate.
   Qed.
 
-  Theorem prog_spec_patched (p : prog E Item Data) s b :
-    run_wrap S E Item Data I patched_code B p (s, b) =
+  Theorem prog_spec_head (p : prog E Item Data) s b :
+    run_wrap S E Item Data I head_code B p (s, b) =
       Ok ((fst (run_bare S E Item Data I p s),
            bar_after E Item Data b (snd (run_bare S E Item Data I p s))),
           snd (run_bare S E Item Data I p s)).
-  Proof. apply prog_spec. apply patched_trace_ok. Qed.
+  Proof. apply prog_spec. apply head_trace_ok. Qed.
 
   (** streams end like iterators *)
-  Theorem poll_next_none_patched s b s' :
+  Theorem poll_next_none_head s b s' :
     i_poll_next I s = (s', Ready None) ->
-    w_poll_next S E Item Data I patched_code (s, b) =
+    w_poll_next S E Item Data I head_code (s, b) =
       ((s', if bar_is_finished b then b else bar_finish_using_style b), Ready None).
   Proof. intros H. rewrite (poll_next_none _ _ _ _ _ _ _ _ _ H). reflexivity. Qed.
-End Patched.
+End Head.
 
-(* ------------------------------------------------------------------ *)
-(** * The current tree: transcription lemmas for the four deviating calls, and refutations *)
-Section Current.
+(** * Interpretation I1 (same code in every variant, HEAD included) *)
+Section InterpretationI1.
   Variables S E Item Data : Type.
   Variable I : inner S E Item Data.
-  Variable B : buffers Data.
-
-  (** Stream::poll_next at HEAD: Ready(None) ALWAYS runs finish_using_style (no is_finished test) *)
-  Theorem poll_next_none_current s b s' :
-    i_poll_next I s = (s', Ready None) ->
-    w_poll_next S E Item Data I current_code (s, b) = ((s', bar_finish_using_style b), Ready None).
-  Proof. intros H. rewrite (poll_next_none _ _ _ _ _ _ _ _ _ H). reflexivity. Qed.
-
-  (** Stream::size_hint at HEAD is futures' default *)
-  Theorem stream_size_hint_default w :
-    wrap_step S E Item Data I current_code B w CStreamSizeHint = Ok (w, RHint (0, None)).
-  Proof. reflexivity. Qed.
-
-  (** poll_write_vectored / is_write_vectored at HEAD are tokio's defaults: the inner object's own
-      methods are never called; the count is still what the inner poll_write reported *)
-  Theorem poll_write_vectored_default w ds :
-    wrap_step S E Item Data I current_code B w (CPollWriteVectored ds) =
-    wrap_step S E Item Data I current_code B w (CPollWrite (first_nonempty Data B ds)).
-  Proof. reflexivity. Qed.
-
-  Theorem is_write_vectored_default w :
-    wrap_step S E Item Data I current_code B w CIsWriteVectored = Ok (w, RBool false).
-  Proof. reflexivity. Qed.
 
   (** read_exact (interpretation I1, same in every variant): an Err counts 0 even when the inner
       reader handed over bytes before failing ([d] is whatever reached the caller's buffer) *)
@@ -457,54 +433,85 @@ Section Current.
     i_read_exact I s n = (s', (d, IoErr e)) ->
     w_read_exact S E Item Data I (s, b) n = ((s', b), (d, IoErr e)).
   Proof. intros H. unfold w_read_exact. rewrite H. reflexivity. Qed.
-End Current.
+End InterpretationI1.
 
-(** Refutations of [meets_spec] for the current tree, one witness per class, on the harness's
-    scripted object (each witness is replayed on the implementation by the corpus of c17.rs). *)
+(* ------------------------------------------------------------------ *)
+(** * Regression: the tree before fixes 7fc986e 3a319c2 c811d79 2747e49 ([pre_fix_code]):
+      transcription lemmas for the four calls that deviated, and refutations *)
+Section PreFix.
+  Variables S E Item Data : Type.
+  Variable I : inner S E Item Data.
+  Variable B : buffers Data.
+
+  (** Stream::poll_next before 3a319c2: Ready(None) ALWAYS ran finish_using_style (no is_finished test) *)
+  Theorem poll_next_none_pre_fix s b s' :
+    i_poll_next I s = (s', Ready None) ->
+    w_poll_next S E Item Data I pre_fix_code (s, b) = ((s', bar_finish_using_style b), Ready None).
+  Proof. intros H. rewrite (poll_next_none _ _ _ _ _ _ _ _ _ H). reflexivity. Qed.
+
+  (** Stream::size_hint before 7fc986e was futures' default *)
+  Theorem pre_fix_stream_size_hint_default w :
+    wrap_step S E Item Data I pre_fix_code B w CStreamSizeHint = Ok (w, RHint (0, None)).
+  Proof. reflexivity. Qed.
+
+  (** poll_write_vectored / is_write_vectored before 2747e49 were tokio's defaults: the inner object's
+      own methods were never called; the count was still what the inner poll_write reported *)
+  Theorem pre_fix_poll_write_vectored_default w ds :
+    wrap_step S E Item Data I pre_fix_code B w (CPollWriteVectored ds) =
+    wrap_step S E Item Data I pre_fix_code B w (CPollWrite (first_nonempty Data B ds)).
+  Proof. reflexivity. Qed.
+
+  Theorem pre_fix_is_write_vectored_default w :
+    wrap_step S E Item Data I pre_fix_code B w CIsWriteVectored = Ok (w, RBool false).
+  Proof. reflexivity. Qed.
+End PreFix.
+
+(** Refutations of [meets_spec] for the pre-fix tree, one witness per class, on the harness's
+    scripted object (each witness is in the corpus of c17.rs, where HEAD must now PASS it). *)
 Definition sc_state (evs : list ev) : sstate := {| s_evs := evs; s_ctr := 0; s_sink := 0 |}.
 Definition finished_bar : bar :=
   {| b_pos := 3; b_len := Some 10; b_status := DoneVisible; b_msg := []; b_on_finish := AndLeave |}.
 
-Theorem stream_size_hint_refuted :
-  exists s b, known_dev N N (list N) current_code b CStreamSizeHint
+Theorem pre_fix_stream_size_hint_refuted :
+  exists s b, known_dev N N (list N) pre_fix_code b CStreamSizeHint
                 (snd (bare_step _ _ _ _ scripted s CStreamSizeHint)) = true
-    /\ ~ meets_spec _ _ _ _ scripted current_code sbuf s b CStreamSizeHint.
+    /\ ~ meets_spec _ _ _ _ scripted pre_fix_code sbuf s b CStreamSizeHint.
 Proof.
   exists (sc_state [EvItem 1; EvItem 2]), (bar0 (Some 5) 0 AndLeave).
   split; [reflexivity|]. unfold meets_spec. vm_compute. discriminate.
 Qed.
 
-Theorem stream_end_refuted :
-  exists s b, known_dev N N (list N) current_code b CPollNext
+Theorem pre_fix_stream_end_refuted :
+  exists s b, known_dev N N (list N) pre_fix_code b CPollNext
                 (snd (bare_step _ _ _ _ scripted s CPollNext)) = true
-    /\ ~ meets_spec _ _ _ _ scripted current_code sbuf s b CPollNext.
+    /\ ~ meets_spec _ _ _ _ scripted pre_fix_code sbuf s b CPollNext.
 Proof.
   exists (sc_state [EvEnd]), finished_bar.
   split; [reflexivity|]. unfold meets_spec. vm_compute. discriminate.
 Qed.
 
-Theorem poll_read_shrink_refuted :
-  exists s b, known_dev N N (list N) current_code b (CPollRead 2 8)
+Theorem pre_fix_poll_read_shrink_refuted :
+  exists s b, known_dev N N (list N) pre_fix_code b (CPollRead 2 8)
                 (snd (bare_step _ _ _ _ scripted s (CPollRead 2 8))) = true
-    /\ ~ meets_spec _ _ _ _ scripted current_code sbuf s b (CPollRead 2 8).
+    /\ ~ meets_spec _ _ _ _ scripted pre_fix_code sbuf s b (CPollRead 2 8).
 Proof.
   exists (sc_state [EvShrink 1]), (bar0 (Some 5) 0 AndLeave).
   split; [reflexivity|]. unfold meets_spec. vm_compute. discriminate.
 Qed.
 
-Theorem async_write_vectored_refuted :
-  exists s b, known_dev N N (list N) current_code b (CPollWriteVectored [[1; 2]; [3; 4; 5]])
+Theorem pre_fix_async_write_vectored_refuted :
+  exists s b, known_dev N N (list N) pre_fix_code b (CPollWriteVectored [[1; 2]; [3; 4; 5]])
                 (snd (bare_step _ _ _ _ scripted s (CPollWriteVectored [[1; 2]; [3; 4; 5]]))) = true
-    /\ ~ meets_spec _ _ _ _ scripted current_code sbuf s b (CPollWriteVectored [[1; 2]; [3; 4; 5]]).
+    /\ ~ meets_spec _ _ _ _ scripted pre_fix_code sbuf s b (CPollWriteVectored [[1; 2]; [3; 4; 5]]).
 Proof.
   exists (sc_state [EvN 4]), (bar0 (Some 5) 0 AndLeave).
   split; [reflexivity|]. unfold meets_spec. vm_compute. discriminate.
 Qed.
 
-Theorem is_write_vectored_refuted :
-  exists s b, known_dev N N (list N) current_code b CIsWriteVectored
+Theorem pre_fix_is_write_vectored_refuted :
+  exists s b, known_dev N N (list N) pre_fix_code b CIsWriteVectored
                 (snd (bare_step _ _ _ _ scripted s CIsWriteVectored)) = true
-    /\ ~ meets_spec _ _ _ _ scripted current_code sbuf s b CIsWriteVectored.
+    /\ ~ meets_spec _ _ _ _ scripted pre_fix_code sbuf s b CIsWriteVectored.
 Proof.
   exists (sc_state []), (bar0 (Some 5) 0 AndLeave).
   split; [reflexivity|]. unfold meets_spec. vm_compute. discriminate.
@@ -525,7 +532,7 @@ Proof.
   repeat split; assumption.
 Qed.
 
-(** deviation D-b is observable through the getters: re-finishing a finished bar can move the position *)
+(** why the pre-3a319c2 behaviour mattered: re-finishing a finished bar can move the position *)
 Theorem stream_refinish_observable :
   exists b, bar_is_finished b = true /\ b_pos (bar_finish_using_style b) <> b_pos b.
 Proof.
